@@ -39,7 +39,7 @@ type Term struct {
 	// LaxEraseAtMargin selects the other common behaviour for "erase to end of line /
 	// screen" while a wrap is pending at the right margin: xterm and the VT100 erase the
 	// last cell (the cursor is on it); tmux and others treat the cursor as past it and
-	// erase nothing on that row. Screen oracles accept a picture if either model shows it.
+	// erase nothing on that row. Screen oracles require the picture to be right under both.
 	LaxEraseAtMargin bool
 	savedX           int
 	savedY           int
